@@ -411,7 +411,7 @@ func totalDeleters(w *World, ef *Effects, r *Report) map[*ssa.Function]int {
 				if !uses {
 					continue
 				}
-				if callee, _ := calleeOf(cc.Common()); callee == nil || !policyPredicate(callee) {
+				if callee, _ := calleeOf(cc.Common()); callee == nil || !(policyPredicate(callee) || (fnPkgPath(callee) == "slices" && genericName(callee) == "Contains")) {
 					continue
 				}
 				for _, e := range condEdges(cc) {
